@@ -199,7 +199,7 @@ def clsOf : Dbl → FCls
 
 /-- `coerce_int` on a JSON value; the branches in the order of the source (`Generated.Scalars.coerceIntBranches`) -/
 def coerceInt : JV → R
-  | .bool b => rangeChecked (if b then 1 else 0) (.bool b)      -- isinstance(True, int): numeric = maybe_int
+  | .bool b => rangeChecked (if b then 1 else 0) (.int (if b then 1 else 0))   -- isinstance(True, int): numeric = int(maybe_int)
   | .int n => rangeChecked n (.int n)
   | .float t =>
     match pyFloat t with
